@@ -2,7 +2,8 @@
  * working tree).  stdin: one run per line; stdout: per run the final cell and every returned value of every thread.
  *
  *   RUN id mode kind nthr nops yield init  inc-pattern-per-thread...
- *     mode  P = pthreads, Q = qthreads (tasks of the live runtime)
+ *     mode  P = pthreads (start barrier, CAS rounds separated by barriers), Q = qthreads (tasks of the live runtime, never
+ *           spinning or yielding; a CAS round is one fork/join of nthr tasks)
  *     kind  i32 i64   qthread_incr (macro) on uint32_t / uint64_t
  *           x32 x64   qthread_incr32 / qthread_incr64 (functions)
  *           f d       qthread_fincr / qthread_dincr  (init / incs / results are bit patterns of float / double)
@@ -24,7 +25,7 @@
 
 #define MAXT 64
 typedef struct {
-    int       tid, nthr, nops, yield_every, qmode, kind;
+    int       tid, nthr, nops, yield_every, qmode, kind, round;
     uint64_t *incs; int nincs;
     uint64_t *rets;
 } targ_t;
@@ -37,11 +38,11 @@ static volatile aligned_t phase __attribute__((aligned(64)));
 static volatile aligned_t done_cnt;
 static volatile uint64_t expect_now;       /* CAS rounds: value every thread expects in this round */
 
-static inline void relax(int qmode) { if (qmode) qthread_yield(); else sched_yield(); }
 
-/* sense-counting barrier usable by pthreads and by tasks (tasks yield while waiting) */
+/* counting barrier of OS threads / of tasks that each own a worker: spins, then gives the CPU to the OS */
 static void barrier(int n, int qmode)
 {
+    (void)qmode;
     aligned_t my = phase;
     if (__sync_add_and_fetch(&arrived, 1) == (aligned_t)n) {
         arrived = 0;
@@ -49,7 +50,7 @@ static void barrier(int n, int qmode)
         __sync_fetch_and_add(&phase, 1);
     } else {
         unsigned spins = 0;
-        while (phase == my) { if (qmode || ++spins > 2000) relax(qmode); }
+        while (phase == my) { if (++spins > 2000) sched_yield(); }
     }
 }
 
@@ -59,9 +60,11 @@ static int stale(int round, int tid) { return tid != 0 && ((round * 7 + tid) % 5
 static void body(targ_t *a)
 {
     int k;
-    barrier(a->nthr, a->qmode);
+    if (!a->qmode) barrier(a->nthr, 0);      /* tasks never spin: they may share a worker */
     if (a->kind >= K_C32) {
-        for (k = 0; k < a->nops; k++) {
+        /* pthreads: all rounds in one thread, two barriers per round.  qthreads: one task per (round, thread), see main */
+        int from = a->qmode ? a->round : 0, to = a->qmode ? a->round + 1 : a->nops;
+        for (k = from; k < to; k++) {
             uint64_t e = expect_now, n = cas_new(k, a->tid), r;
             if (stale(k, a->tid)) e ^= (1u << 30);
             switch (a->kind) {
@@ -70,9 +73,10 @@ static void body(targ_t *a)
                 default:    r = (uint64_t)(uintptr_t)qthread_cas_ptr(&cell.p, (void *)(uintptr_t)e, (void *)(uintptr_t)n); break;
             }
             a->rets[k] = r;
-            barrier(a->nthr, a->qmode);
+            if (a->qmode) break;
+            barrier(a->nthr, 0);
             if (a->tid == 0) expect_now = (a->kind == K_C32) ? cell.u32 : cell.u64;
-            barrier(a->nthr, a->qmode);
+            barrier(a->nthr, 0);
         }
         return;
     }
@@ -104,7 +108,7 @@ static void body(targ_t *a)
             }
         }
         a->rets[k] = r;
-        if (a->yield_every && (k % a->yield_every) == a->yield_every - 1) relax(a->qmode);
+        if (a->yield_every && (k % a->yield_every) == a->yield_every - 1) { if (!a->qmode) sched_yield(); }   /* no qthread_yield: starves on multi-worker shepherds */
     }
 }
 
@@ -157,9 +161,14 @@ int main(void)
         alarm(120);
         if (mode == 'Q') {
             if (!qinit) { if (qthread_initialize() != QTHREAD_SUCCESS) { printf("ERR init\n"); return 2; } qinit = 1; }
-            unsigned ns = qthread_num_shepherds();
-            for (int t = 0; t < nthr; t++) qthread_fork_to(task_main, &ta[t], NULL, t % ns);
-            while (done_cnt != (aligned_t)nthr) qthread_yield();
+            unsigned  ns = qthread_num_shepherds();
+            aligned_t rv[MAXT];
+            int       rounds = (kind >= K_C32) ? nops : 1;
+            for (int rd = 0; rd < rounds; rd++) {         /* CAS rounds: one fork/join of nthr tasks per round */
+                for (int t = 0; t < nthr; t++) { ta[t].round = rd; qthread_fork_to(task_main, &ta[t], &rv[t], (t + rd) % ns); }
+                for (int t = 0; t < nthr; t++) qthread_readFF(NULL, &rv[t]);      /* main blocks: its worker runs tasks */
+                if (kind >= K_C32) expect_now = (kind == K_C32) ? cell.u32 : cell.u64;
+            }
         } else {
             pthread_t th[MAXT];
             for (int t = 0; t < nthr; t++) pthread_create(&th[t], NULL, pth_main, &ta[t]);
